@@ -1207,11 +1207,10 @@ func ValueTupleExpr(query *Query, current Map, expr *sqlparser.ValTuple, opts ..
 		if err != nil {
 			return nil, err
 		}
-		if colName, ok := value.(ColumnName); ok {
-			value, err = ExecReader(current, string(colName))
-			if err != nil {
-				return nil, err
-			}
+		// unwrap column references, literal wrappers and number pointers
+		value, err = ValueOf(query, current, value)
+		if err != nil {
+			return nil, err
 		}
 		slice = append(slice, value)
 	}
